@@ -234,8 +234,8 @@ Lemma reachdist2_flag n C (HC : forall i j, (i < n)%nat -> (j < n)%nat -> (0 <= 
 Proof.
   induction fuel as [|f IH]; intros CP R D powr row col R' D' p' q Hq HP HR Hrun; [discriminate|].
   cbn [reachdist2] in Hrun.
-  pose proof (pow_ok_S n C HC q CP Hq HP) as HP'.
-  set (CP' := tab 0%Z n n (matmul n CP C)) in *.
+  pose proof (pow_ok_clip n C _ _ (pow_ok_S n C HC q CP Hq HP)) as HP'.
+  set (CP' := tab 0%Z n n (fun i j => b2z (znz (tab 0%Z n n (matmul n CP C) i j)))) in *.
   set (R1 := tab false n n (fun i j => (R i j || znz (CP' i j))%bool)) in *.
   assert (HR1 : forall i j, (i < n)%nat -> (j < n)%nat -> R1 i j = true -> exists e, hasw n C e i j).
   { intros i j Hi Hj. unfold R1. rewrite tab_spec by assumption. intros H. apply orb_true_iff in H.
